@@ -37,6 +37,12 @@ def standins(tier, seed):
         cfgs = [dict(p=2, q=0, r=1, random=2, max_variants=8), dict(p=2, q=1, random=2, max_variants=6), dict(p=1, random=2)]
     else:
         cfgs = [dict(p=p, q=q, r=r, random=4) for (p, q, r) in [(1, 0, 0), (2, 0, 0), (1, 1, 0), (2, 0, 1), (1, 1, 1), (3, 0, 0), (2, 1, 0), (3, 0, 1), (2, 2, 0), (2, 1, 1)]]
+    # wide outputs (more than 32 result blades, 6-D): the cse and the func_builder branch of code generation must agree there too
+    wide = [dict(p=6, random=1, grades_a=(1,), grades_b=(2, 3), ops=['gp', 'sw', 'proj', 'add', 'reverse'],
+                 variants=[dict(cse=True, graded=False), dict(cse=False, graded=False)]),
+            dict(p=5, q=1, random=1, grades_a=(2, 3), grades_b=(1,), ops=['gp', 'normsq', 'proj', 'op'],
+                 variants=[dict(cse=True, graded=False), dict(cse=False, graded=False)])]
+    cfgs = cfgs + (wide[:1] if tier == 'quick' else wide)
     names = [{'name': 'typeid', 'bound': 'generated function names pairwise distinct across all operators and all ordered key tuples (d<=2 exhaustive, d=3 up to length 3): with a wrapper set functions are called by name',
               'job': {'kind': 'typeid', 'module': 'standins.jobs2', 'configs': [dict(p=1), dict(p=2), dict(p=2, q=0, r=1, maxlen=2)]}}]
     return names + [{'name': f'options#{i}', 'bound': 'grade-block operand pairs per signature x the product (sampled in quick) of cse x graded x symbol class x wrapper; Fraction values; every operator compared with the default-options algebra',
